@@ -429,3 +429,129 @@ def compress_markings_contract():
                     loops={0: {'kind': 'inv', 'inv': inv}},
                     havoc={'map_': lambda v: Val('pairmap', z3.FreshConst(PairSet, 'map_'))},
                     assumptions=['sorted(selectors) holds exactly the selectors of the set; utils.is_marking is a function of the text (it tells a marking-definition id from a language code)'])
+
+
+# ------------------------------------------------------------------ granular add_markings: view(result) == view(object) | { (kind(m), m, s) | m in markings, s in selectors }
+OBJ_VIEW = z3.Const('obj.granular_markings.view', TripleSet); OBJ_HAS = z3.Bool('obj.granular_markings.nonempty')
+MK = z3.Function('marking.item', z3.IntSort(), E.S); MK_N = z3.Int('n_markings'); SELQ = z3.Const('selectors.view', E.SetS)
+GRAN = 'stix2/markings/granular_markings.py'
+
+
+def granular_add_contract():
+    from vf.pyvc.lib import rebinding
+    K_, M_, S_ = z3.Bool('k!ga'), z3.String('m!ga'), z3.String('s!ga')
+    empty = z3.Lambda([K_, M_, S_], z3.BoolVal(False))
+
+    def view_of(v):
+        if v.sort == 'litlist' and not v.x: return empty
+        if v.sort == 'triples': return v.t
+        if v.sort == 'none': return empty
+        return None
+
+    def h_to_list(x, e, p, site):
+        if [ast.unparse(a) for a in e.args] != ['selectors']: raise Unsupported(site + ' convert_to_list of something else')
+        yield p, Val('selset', SELQ)
+
+    def h_to_markings(x, e, p, site):
+        if [ast.unparse(a) for a in e.args] != ['marking']: raise Unsupported(site + ' convert_to_marking_list of something else')
+        yield p, E.Seq(lambda i: Str(MK(i)), MK_N)
+
+    def h_validate(x, e, p, site):
+        ok = [ast.unparse(a) for a in e.args] == ['obj', 'selectors'] and p.env['selectors'].sort == 'selset'
+        x.oblige('call(utils.validate): the object and the selectors of this call are validated before anything is built', p.pc, z3.BoolVal(bool(ok)), p.exact, 'call-requires')
+        yield p.fork(), Exc('InvalidSelectorError', site)
+        q = p.fork(); q.ghost = dict(q.ghost, validated=True)
+        yield q, NONE
+
+    def h_is_marking(x, e, p, site):
+        for p1, vs in x.ev_seq(list(e.args), p):
+            yield p1, (vs if isinstance(vs, Exc) else Bool(ISMARK(vs[0].t)))
+
+    def entry(is_ref):
+        def h(x, e, p):
+            m = p.env['m']; sels = p.env['selectors']
+            if m.sort != 'str' or sels.sort != 'selset': raise Unsupported('entry literal over ' + m.sort + ' / ' + sels.sort)
+            yield p, Val('triples', z3.Lambda([K_, M_, S_], z3.And(K_ == z3.BoolVal(is_ref), M_ == m.t, sels.t[S_])))
+        return h
+
+    def m_union(x, recv, args, p):
+        a = view_of(args[0]); b = view_of(recv)
+        if a is None or b is None: raise Unsupported(f'append/extend of {args[0].sort} to {recv.sort}')
+        return Val('triples', z3.Lambda([K_, M_, S_], z3.Or(b[K_, M_, S_], a[K_, M_, S_])))
+
+    def m_obj_get(x, recv, args, e, p, site):
+        if not (len(args) == 1 and z3.is_string_value(args[0].t) and args[0].t.as_string() == 'granular_markings'): raise Unsupported(site + ' obj.get of another key')
+        yield p, Val('triples', OBJ_VIEW, x={'of': 'obj'})
+
+    def h_expand(x, e, p, site):
+        """callee contract (proved): the same triples"""
+        for p1, vs in x.ev_seq(list(e.args), p):
+            if isinstance(vs, Exc): yield p1, vs; continue
+            v = view_of(vs[0])
+            if v is None: raise Unsupported(site + ' expand of ' + vs[0].sort)
+            yield p1, Val('triples', v)
+
+    def h_compress(x, e, p, site):
+        """callee contract (proved): the same triples, provided the kinds can be told apart by is_marking"""
+        for p1, vs in x.ev_seq(list(e.args), p):
+            if isinstance(vs, Exc): yield p1, vs; continue
+            v = view_of(vs[0])
+            if v is None: raise Unsupported(site + ' compress of ' + vs[0].sort)
+            k, m, s = z3.Bool('k!wf'), z3.String('m!wf'), z3.String('s!wf')
+            x.oblige('call(utils.compress_markings).requires: marking_ref entries hold marking ids, lang entries do not', p1.pc, z3.ForAll([k, m, s], z3.Implies(v[k, m, s], k == ISMARK(m))), p1.exact, 'call-requires')
+            yield p1, Val('triples', v)
+
+    def h_new_version(x, e, p, site):
+        kws = {k.arg: k.value for k in e.keywords}
+        ok = [ast.unparse(a) for a in e.args] == ['obj'] and set(kws) == {'granular_markings', 'allow_custom'}
+        x.oblige('call(new_version): the new version is made from this object, changing granular_markings only', p.pc, z3.BoolVal(bool(ok)), p.exact, 'call-requires')
+        if not ok: raise Unsupported(site + ' new_version call shape')
+        for p1, v in x.ev(kws['granular_markings'], p):
+            if isinstance(v, Exc): yield p1, v; continue
+            vv = view_of(v)
+            if vv is None: raise Unsupported(site + ' granular_markings argument of sort ' + v.sort)
+            yield p1.fork(), Exc('InvalidValueError', site)            # the constructor may refuse (C02)
+            yield p1, Val('newobj', vv)
+
+    def inv(x, env, i, it):
+        k, m, s = z3.Bool('k!gi'), z3.String('m!gi'), z3.String('s!gi'); j = z3.Int('j!gi')
+        view = view_of(env['granular_marking'])
+        return z3.ForAll([k, m, s], view[k, m, s] == z3.Exists([j], z3.And(0 <= j, j < i, MK(j) == m, k == ISMARK(m), SELQ[s])))
+
+    def ens(a, r):
+        k, m, s = z3.Bool('k!ge'), z3.String('m!ge'), z3.String('s!ge'); j = z3.Int('j!ge')
+        if r.sort != 'newobj': return z3.BoolVal(False)
+        return z3.ForAll([k, m, s], r.t[k, m, s] == z3.Or(OBJ_VIEW[k, m, s], z3.Exists([j], z3.And(0 <= j, j < MK_N, MK(j) == m, k == ISMARK(m), SELQ[s]))))
+
+    def obj_wf(a):
+        k, m, s = z3.Bool('k!ow'), z3.String('m!ow'), z3.String('s!ow')
+        return z3.And(z3.ForAll([k, m, s], z3.Implies(OBJ_VIEW[k, m, s], k == ISMARK(m))), z3.Or(OBJ_HAS, z3.ForAll([k, m, s], z3.Not(OBJ_VIEW[k, m, s]))))
+    def outcomes(x, outs, add):
+        for i, (kind, p, v) in enumerate(outs):
+            if kind == 'return':
+                add(f'the selectors were validated against the object on the way to this result (a caller that stops calling utils.validate is a failed obligation) @path{i}', p.pc, z3.BoolVal(bool(p.ghost.get('validated'))), p.exact)
+    return Contract(f'{GRAN}::add_markings', props=['C07'], on_outcomes=outcomes, params={'obj': Val('markedobj', x={}), 'marking': 'opaque', 'selectors': 'opaque'},
+                    requires=[('lengths', lambda a: MK_N >= 0), ('the object\'s own granular markings are well formed (marking_ref entries hold marking ids, lang entries language codes); an empty list has no triples', obj_wf)],
+                    ensures=[('view(result) == view(object) united with { (kind(m), m, s) | m among the markings, s among the selectors } -- nothing else is added, nothing is lost', ens)],
+                    raises={'InvalidSelectorError': None, 'InvalidValueError': None},
+                    handlers={'utils.convert_to_list': h_to_list, 'utils.convert_to_marking_list': h_to_markings, 'utils.validate': h_validate, 'is_marking': h_is_marking,
+                              'utils.expand_markings': h_expand, 'utils.compress_markings': h_compress, 'new_version': h_new_version},
+                    expr_hooks={"{'marking_ref': m, 'selectors': sorted(selectors)}": entry(True), "{'lang': m, 'selectors': sorted(selectors)}": entry(False)},
+                    registry_ext={'methods': {('.get', 'markedobj'): m_obj_get, ('.append', 'litlist'): rebinding(m_union), ('.append', 'triples'): rebinding(m_union),
+                                              ('.extend', 'litlist'): rebinding(m_union), ('.extend', 'triples'): rebinding(m_union)}},
+                    truthy_handlers={'triples': lambda x, v: OBJ_HAS if (v.x or {}).get('of') == 'obj' else z3.BoolVal(True)},
+                    loops={0: {'kind': 'inv', 'inv': inv}},
+                    havoc={'granular_marking': lambda v: Val('triples', z3.FreshConst(TripleSet, 'granular_marking'))},
+                    assumptions=['callee contracts of granular add_markings: expand_markings and compress_markings (proved: the same triples), utils.validate (proved), new_version (proved in C05: '
+                                 'exactly the requested change), convert_to_list / convert_to_marking_list (the selectors / marking ids of the call, as collections)'])
+
+
+def add_law_lemmas():
+    """from the contract of add_markings alone: adding is idempotent and order-independent (set union)"""
+    V = z3.Const('V', TripleSet); A = z3.Const('A', TripleSet); B = z3.Const('B', TripleSet)
+    k, m, s = z3.Bool('k!al'), z3.String('m!al'), z3.String('s!al')
+    add = lambda v, a: z3.Lambda([k, m, s], z3.Or(v[k, m, s], a[k, m, s]))
+    same = lambda x, y: z3.ForAll([k, m, s], x[k, m, s] == y[k, m, s])
+    return [('add is idempotent: add(add(V, A), A) == add(V, A)', same(add(add(V, A), A), add(V, A))),
+            ('add is order-independent: add(add(V, A), B) == add(add(V, B), A)', same(add(add(V, A), B), add(add(V, B), A))),
+            ('after adding, the added pairs are reported: A is a subset of add(V, A)', z3.ForAll([k, m, s], z3.Implies(A[k, m, s], add(V, A)[k, m, s])))]
